@@ -63,7 +63,8 @@ LEVEL_NOTE = (
 )
 TECHNIQUE = ("Lean 4 proof (inductive invariant over a small-step interleaving semantics, frame lemma per "
              "thread slot) + schedule-forced differential correspondence with the real optimizers + AST facts")
-LEAN_MODULES = ["CotengraVerif.Props.C16", "CotengraVerif.Props.C16Facts"]
+LEAN_MODULES = ["CotengraVerif.Props.C16", "CotengraVerif.Props.C16Nest", "CotengraVerif.Props.C16Pool",
+                "CotengraVerif.Props.C16Facts"]
 THEOREMS = [
     "Cotengra.C16.per_thread_isolation",
     "Cotengra.C16.per_thread_isolation_from",
@@ -77,6 +78,20 @@ THEOREMS = [
     "Cotengra.C16.sequential_fresh_partial",
     "Cotengra.C16.presets_stateless",
     "Cotengra.C16.shared_stores_keyed_by_thread",
+    # re-entrant queries (Props/C16Nest.lean)
+    "Cotengra.C16.nested_isolation",
+    "Cotengra.C16.nested_isolation_from",
+    "Cotengra.C16.nested_isolation_seq",
+    "Cotengra.C16.nstep_inv",
+    "Cotengra.C16.stepTop_subopts_other",
+    "Cotengra.C16.register_first_counterexample",
+    "Cotengra.C16.nested_path_isolation",
+    "Cotengra.C16.path_collision_counterexample",
+    # overlapping pool-parallel sub-searches (Props/C16Pool.lean)
+    "Cotengra.C16.pool_isolation",
+    "Cotengra.C16.pool_refines_single_search",
+    "Cotengra.C16.shared_list_counterexample",
+    "Cotengra.C16.futures_fresh_per_search",
 ]
 TRUSTED = [
     "Lean 4.33 kernel; axioms ⊆ {propext, Classical.choice, Quot.sound}",
@@ -179,6 +194,7 @@ class Controller:
         self.chooser = chooser     # callable(enabled list) -> thread index
         self.effective = []
         self.enabled_log = []
+        self.seg_labels = []       # what ended each segment of `effective` (name of the yield point / "end")
         self.free = False          # stress mode: yields are no-ops
 
     def start(self, i):
@@ -188,10 +204,11 @@ class Controller:
             while self.turn != i:
                 self.cv.wait()
 
-    def yield_(self, i):
+    def yield_(self, i, label="end"):
         if self.free:
             return
         with self.cv:
+            self.seg_labels.append(label)
             self.turn = None
             self.cv.notify_all()
             while self.turn != i:
@@ -201,6 +218,7 @@ class Controller:
         with self.cv:
             self.done[i] = True
             if not self.free:
+                self.seg_labels.append("end")
                 self.turn = None
             self.cv.notify_all()
 
@@ -221,12 +239,19 @@ class Controller:
 
 
 _tls = threading.local()
+_ROBJS = {}    # id(instrumented Reusable object) -> object (cleared per nested run)
 
 
-def _yield():
+def _yield(label="hook"):
     ctl = getattr(_tls, "ctl", None)
     if ctl is not None:
-        ctl.yield_(_tls.idx)
+        ctl.yield_(_tls.idx, label)
+
+
+def _node():
+    """the plan node of the query this thread is currently inside (innermost), or None"""
+    st = getattr(_tls, "qstack", None)
+    return st[-1]["node"] if st else None
 
 
 class YieldDict(dict):
@@ -234,7 +259,7 @@ class YieldDict(dict):
 
     def __setitem__(self, k, v):
         dict.__setitem__(self, k, v)
-        _yield()
+        _yield("store")
 
 
 class CacheProxy:
@@ -248,12 +273,12 @@ class CacheProxy:
 
     def __getitem__(self, k):
         v = self._inner[k]
-        _yield()
+        _yield("cacheGet")
         return v
 
     def __setitem__(self, k, v):
         self._inner[k] = v
-        _yield()
+        _yield("cacheSet")
 
     def __getattr__(self, name):
         return getattr(self._inner, name)
@@ -288,29 +313,40 @@ def instrument_reusable(ropt):
     # the wrappers pass through whatever arguments the real methods take
     def hash_query(*a, **kw):
         r = orig_hash(*a, **kw)
-        _yield()
+        nd = _node()
+        if nd is not None:
+            nd["obj_key"] = id(ropt)
+            _ROBJS[id(ropt)] = ropt
+        _yield("hash")
         return r
 
     def _get_suboptimizer(*a, **kw):
         opt = orig_get(*a, **kw)
         idx = getattr(_tls, "idx", 0)
         ropt._verif_nsearch[idx] = ropt._verif_nsearch.get(idx, 0) + 1
+        nd = _node()
+        if nd is not None:
+            nd["searched"] = True
         orig_search = opt.search
 
         def search(*a, **kw):
             tree = orig_search(*a, **kw)
-            _yield()
+            _yield("search")
             return tree
 
         opt.search = search
         return opt
 
     def _run_optimizer(*a, **kw):
+        nd = _node()               # the query that runs this sub-search (nested ones pop before we return)
         con = orig_run(*a, **kw)
         try:
-            ropt._verif_scores.setdefault(getattr(_tls, "idx", 0), []).append(con["score"])
+            sc = con["score"]
         except Exception:
-            ropt._verif_scores.setdefault(getattr(_tls, "idx", 0), []).append(None)
+            sc = None
+        ropt._verif_scores.setdefault(getattr(_tls, "idx", 0), []).append(sc)
+        if nd is not None:
+            nd["score"] = sc
         return con
 
     ropt.hash_query = hash_query
@@ -335,8 +371,14 @@ def instrument_auto(aopt):
                 aopt._verif_instr_error = str(e)
         else:
             aopt._verif_nsearch[idx] = aopt._verif_nsearch.get(idx, 0) + 1
+            nd = _node()
+            if nd is not None:
+                nd["searched"] = True
         aopt._verif_objs[idx] = opt
-        _yield()
+        nd = _node()
+        if nd is not None:
+            nd["obj_key"] = id(opt)
+        _yield("getopt")
         return opt
 
     aopt._get_optimizer_hyper_threadsafe = getter
@@ -367,14 +409,21 @@ class HookObjective(FlopsObjective):
 PUBLIC_MODES = ("reusable-no", "reusable-yes", "reusable-improved", "auto-cached", "auto-plain")
 
 
-def make_optimizer(mode, instr="private"):
+def make_optimizer(mode, instr="private", **over):
     """instr: 'private' = yield points on private attributes (instance wrappers); 'public' = yield
-    points only inside a user-supplied objective; 'none' = the plain object."""
+    points only inside a user-supplied objective; 'none' = the plain object.  `over`: overrides of
+    the hyper-optimizer keyword arguments (the nested streams pass their own `methods`)."""
     wrap_r = instrument_reusable if instr == "private" else (lambda o: o)
     wrap_a = instrument_auto if instr == "private" else (lambda o: o)
     hyper_kw = dict(HYPER_KW)
+    hyper_kw.update(over)
     if instr == "public":
         hyper_kw["minimize"] = HookObjective()
+    if mode.startswith("pool"):
+        # one ReusableHyperOptimizer whose sub-searches dispatch their trials to a user-supplied
+        # executor (public API: `parallel=<executor>`); see harness/c16_pool.py
+        from . import c16_pool
+        return c16_pool.make_pool_optimizer(mode, wrap_r, hyper_kw)
     if mode.startswith("reusable"):
         kind = mode.split("-")[1]
         if kind == "rgreedy":
@@ -416,12 +465,17 @@ def run_threads(mode, programs, chooser=None, free=False, use_call=False, instr=
     results = [[] for _ in range(n)]
     errors = [[] for _ in range(n)]
 
+    nodes = [[] for _ in range(n)]
+
     def worker(i):
         _tls.ctl, _tls.idx = ctl, i
         try:
             ctl.start(i)
             for j, nid in enumerate(programs[i]):
                 net = POOL[nid]
+                node = {"nid": nid, "searched": False, "score": None, "obj_key": None}
+                nodes[i].append(node)
+                _tls.qstack = [{"node": node, "k": 0}]
                 try:
                     with warnings.catch_warnings():
                         warnings.simplefilter("ignore")
@@ -439,6 +493,7 @@ def run_threads(mode, programs, chooser=None, free=False, use_call=False, instr=
                     ctl.yield_(i)
         finally:
             _tls.ctl = None
+            _tls.qstack = None
             ctl.finish(i)
 
     ths = [threading.Thread(target=worker, args=(i,), daemon=True) for i in range(n)]
@@ -452,6 +507,9 @@ def run_threads(mode, programs, chooser=None, free=False, use_call=False, instr=
     obs = {"results": results, "errors": errors, "schedule": list(ctl.effective),
            "enabled": ctl.enabled_log, "completed": completed and all(not t.is_alive() for t in ths)}
     obs["instr"] = instr
+    obs["seg_labels"] = list(ctl.seg_labels)
+    obs["nodes"] = nodes
+    obs["_opt"] = opt
     if instr != "private":
         return obs
     # per-thread sub-search counts, scores and cached keys (private attributes: best effort)
@@ -535,6 +593,58 @@ def model_compare(drv, mode, programs, obs):
             return f"thread {i}: sub-searches model {th['nsearch']} vs implementation {obs['nsearch'][i]}"
         if obs["cached"][i] is not None and sorted(th["cached"]) != sorted(obs["cached"][i]):
             return f"thread {i}: cached keys model {th['cached']} vs implementation {obs['cached'][i]}"
+    return model_compare_labelled(drv, mode, programs, obs, allsc)
+
+
+OBSERVABLE = ["hash", "getopt", "search", "store", "cacheGet", "cacheSet", "call"]
+
+
+def model_compare_labelled(drv, mode, programs, obs, allsc):
+    """The same run against the stack-of-frames model (Model/ReuseNest.lean, flat nesting trees),
+    segment by segment: which kind of shared access ended every segment of the effective schedule
+    must be what the model's thread does next (the intermediate states, not only the end)."""
+    if len(obs.get("seg_labels", [])) != len(obs["schedule"]):
+        return None
+    mm = model_mode(mode)
+    queues = []
+    for i, prog in enumerate(programs):
+        q = []
+        for j, nid in enumerate(prog):
+            node = obs["nodes"][i][j] if j < len(obs["nodes"][i]) else {}
+            sc = node.get("score")
+            rank = allsc.index(sc) if sc in allsc else 0
+            q.append({"q": [nid, KEY[nid], bool(HARD[nid])], "kind": mm["mode"], "obj": obs["obj_of"][i],
+                      "call": False, "trials": [{"nested": [], "score": rank}]})
+        queues.append(q)
+    objs = sorted(set(obs["obj_of"]))
+    resp = drv.call("c16.nrun", queues=queues, overwrite=[[o, mm["overwrite"]] for o in objs],
+                    cache_only=objs if mm["cache_only"] else [],
+                    segments=[[t, l] for t, l in zip(obs["schedule"], obs["seg_labels"])],
+                    observable=OBSERVABLE,
+                    probe=[[obs["obj_of"][i], KEY[nid]] for i, p in enumerate(programs) for nid in dict.fromkeys(p)])
+    if "error" in resp:
+        return "c16.nrun driver error: " + resp["error"]
+    if resp["mismatch"] is not None:
+        m = resp["mismatch"]
+        return (f"c16.nrun: segment {m['segment']} of the schedule ended at yield point {m['expected']!r} in the "
+                f"implementation, the model's thread comes to {m['got']!r} next")
+    for i, th in enumerate(resp["threads"]):
+        got = [[r[0], r[3]] for r in th["results"]]
+        if th["left"] != 0 or th["stack"] != 0:
+            return f"c16.nrun thread {i}: model has not finished"
+        if th["after_segments"] != len(th["results"]):
+            return f"c16.nrun thread {i}: the model needed steps beyond the implementation's schedule"
+        if got != obs["results"][i]:
+            return f"c16.nrun thread {i}: results model {got} vs implementation {obs['results'][i]}"
+        if th["nalloc"] != obs["nsearch"][i]:
+            return f"c16.nrun thread {i}: sub-optimizers created model {th['nalloc']} vs implementation {obs['nsearch'][i]}"
+    probe = {}
+    for i, per in enumerate(obs["cached"]):
+        for k, v in (per or []):
+            probe[(obs["obj_of"][i], k)] = v
+    for o, k, v in resp["cached"]:
+        if (o, k) in probe and probe[(o, k)] != v:
+            return f"c16.nrun: object {o} key {k}: cached model {v} vs implementation {probe[(o, k)]}"
     return None
 
 
@@ -808,8 +918,117 @@ def extract_facts():
             "last_opt_reads_ident": last_opt_reads_ident, "auto_stores": sorted(set(astores))}
 
 
+_MUTATORS = ("append", "extend", "insert", "pop", "remove", "clear", "update", "setdefault", "add", "popitem",
+             "appendleft", "popleft", "discard")
+
+
+def _is_fresh_container(v):
+    """an expression that evaluates to a new empty container"""
+    if isinstance(v, (ast.List, ast.Dict, ast.Set)):
+        return not (getattr(v, "elts", None) or getattr(v, "keys", None))
+    if isinstance(v, ast.Call) and not v.args and not v.keywords:
+        f = v.func
+        name = f.id if isinstance(f, ast.Name) else (f.attr if isinstance(f, ast.Attribute) else "")
+        return name in ("list", "dict", "set", "deque")
+    return False
+
+
+def _is_mutable_value(v):
+    if isinstance(v, (ast.List, ast.Dict, ast.Set, ast.ListComp, ast.DictComp, ast.SetComp)):
+        return True
+    if isinstance(v, ast.Call):
+        f = v.func
+        name = f.id if isinstance(f, ast.Name) else (f.attr if isinstance(f, ast.Attribute) else "")
+        return name in ("list", "dict", "set", "deque", "defaultdict", "OrderedDict")
+    return False
+
+
+def _self_attr(n, attr=None):
+    return isinstance(n, ast.Attribute) and isinstance(n.value, ast.Name) and n.value.id == "self" and \
+        (attr is None or n.attr == attr)
+
+
+def extract_futures_facts():
+    """How `HyperOptimizer` keeps the in-flight trials of a pool-parallel search (hyper.py):
+    is `self._futures` bound to a fresh container at the start of every search, is there a
+    class-level mutable container that instances mutate in place, is `_futures` reached other than
+    through `self`."""
+    src = open(os.path.join(common.REPO, "cotengra", "hyperoptimizers", "hyper.py")).read()
+    mod = ast.parse(src)
+    classes = {n.name: n for n in mod.body if isinstance(n, ast.ClassDef)}
+
+    def derives(c):
+        for b in c.bases:
+            nm = b.id if isinstance(b, ast.Name) else (b.attr if isinstance(b, ast.Attribute) else "")
+            if nm == "HyperOptimizer" or (nm in classes and derives(classes[nm])):
+                return True
+        return False
+
+    fam = [c for c in classes.values() if c.name == "HyperOptimizer" or derives(c)]
+    # names mutated in place through `self.<name>` in any method of the family
+    mutated = set()
+    for c in fam:
+        for n in ast.walk(c):
+            if isinstance(n, ast.Call) and isinstance(n.func, ast.Attribute) and n.func.attr in _MUTATORS \
+                    and _self_attr(n.func.value):
+                mutated.add(n.func.value.attr)
+            if isinstance(n, ast.Delete):
+                for t in n.targets:
+                    if isinstance(t, ast.Subscript) and _self_attr(t.value):
+                        mutated.add(t.value.attr)
+            if isinstance(n, (ast.Assign, ast.AugAssign)):
+                for t in (n.targets if isinstance(n, ast.Assign) else [n.target]):
+                    if isinstance(t, ast.Subscript) and _self_attr(t.value):
+                        mutated.add(t.value.attr)
+    class_mutables = []
+    for c in fam:
+        for st in c.body:
+            tgts, val = [], None
+            if isinstance(st, ast.Assign):
+                tgts, val = st.targets, st.value
+            elif isinstance(st, ast.AnnAssign) and st.value is not None:
+                tgts, val = [st.target], st.value
+            for t in tgts:
+                if isinstance(t, ast.Name) and _is_mutable_value(val) and t.id in mutated:
+                    class_mutables.append(f"{c.name}.{t.id}")
+    ho = classes["HyperOptimizer"]
+    meths = {n.name: n for n in ho.body if isinstance(n, ast.FunctionDef)}
+
+    def uses(node):
+        return any(_self_attr(n, "_futures") for n in ast.walk(node))
+
+    def fresh_at_start(fn):
+        """a top-level `self._futures = <fresh empty container>` before any other use"""
+        if fn is None:
+            return False
+        for st in fn.body:
+            if isinstance(st, ast.Assign) and len(st.targets) == 1 and _self_attr(st.targets[0], "_futures") \
+                    and _is_fresh_container(st.value):
+                return True
+            if uses(st):
+                return False
+        return False
+
+    fresh = fresh_at_start(meths.get("_gen_results_parallel"))
+    rebinders = sorted({m.name for m in meths.values() for n in ast.walk(m)
+                        if isinstance(n, ast.Assign) and any(_self_attr(t, "_futures") for t in n.targets)})
+    foreign = []
+    for c in fam:
+        for m in [n for n in c.body if isinstance(n, ast.FunctionDef)]:
+            for n in ast.walk(m):
+                if isinstance(n, ast.Attribute) and n.attr == "_futures" and not _self_attr(n):
+                    foreign.append(f"{c.name}.{m.name}")
+    return {"class_mutables": sorted(set(class_mutables)), "fresh_per_search": bool(fresh),
+            "rebinders": rebinders, "foreign_uses": sorted(set(foreign))}
+
+
 def gen_facts():
     f = extract_facts()
+    try:
+        ff = extract_futures_facts()
+    except Exception as e:  # noqa  (the obligation then fails: nothing can be said about the source)
+        ff = {"class_mutables": ["<extraction failed: %s>" % type(e).__name__], "fresh_per_search": False,
+              "rebinders": [], "foreign_uses": []}
 
     def lst(xs):
         return "[" + ", ".join(json.dumps(x) for x in xs) + "]"
@@ -842,6 +1061,20 @@ def lastOptReadsIdent : Bool := {"true" if f["last_opt_reads_ident"] else "false
     (attribute, subscript key or "" for a plain attribute store) -/
 def autoStores : List (String × String) := [{autos}]
 
+/-- class-level mutable containers of `HyperOptimizer` (and subclasses, hyper.py) that instances
+    mutate in place through `self.<name>` -/
+def hyperClassMutables : List String := {lst(ff["class_mutables"])}
+
+/-- `_gen_results_parallel` starts with `self._futures = <fresh empty container>` (before any
+    other use of `self._futures`) -/
+def futuresFreshPerSearch : Bool := {"true" if ff["fresh_per_search"] else "false"}
+
+/-- methods of `HyperOptimizer` that (re)bind `self._futures` -/
+def futuresRebinders : List String := {lst(ff["rebinders"])}
+
+/-- methods that reach `_futures` other than through `self` -/
+def futuresForeignUses : List String := {lst(ff["foreign_uses"])}
+
 end Cotengra.Generated.C16
 """
     return {"CotengraVerif/Generated/FactsC16.lean": src}
@@ -853,6 +1086,9 @@ end Cotengra.Generated.C16
 
 def replay_case(case):
     kind = case["kind"]
+    if kind == "nested":
+        from . import c16_nest
+        return c16_nest.replay_case(case)
     if kind == "schedule":
         sched = list(case["schedule"])
 
@@ -949,6 +1185,7 @@ def run(ctx, drv):
                           f"corpus case {os.path.basename(path)} fails again: {bad[0]} {bad[1]}")
     try:
         ctx.notes["facts_extracted"] = extract_facts()
+        ctx.notes["facts_extracted"]["futures"] = extract_futures_facts()
     except Exception as e:
         ctx.obligation("fact extraction from reusable.py / presets.py / path_basic.py", False, repr(e))
 
@@ -1017,6 +1254,12 @@ def run(ctx, drv):
         hist = [a, b, a] + [rng.choice([a, b, rng.choice(ids)]) for _ in range(rng.randint(0, 3))]
         check_schedule(ctx, drv, mode, [hist], None, "sequential")
 
+    # N: re-entrant (nested) queries -- Model/ReuseNest.lean, driver op c16.nrun
+    from . import c16_nest, c16_pool
+    c16_nest.run(ctx, drv)
+    # Q: overlapping pool-parallel sub-searches -- Model/ReusePool.lean, driver op c16.pool
+    c16_pool.run(ctx, drv)
+
     # S: free-running stress, sequential reuse, presets
     ns = 64 if quick else 800
     for i in range(ns):
@@ -1042,6 +1285,11 @@ def search(ctx):
     import random as _r
     rng = ctx.rng
     found = False
+    from . import c16_nest, c16_pool
+    if c16_nest.search(ctx):
+        return True
+    if c16_pool.search(ctx):
+        return True
 
     def report(mode, programs, case, bad):
         sig = signature(mode, programs, bad)
